@@ -18,7 +18,7 @@ def check(ctx, src):
     rq = comp.rm.func("compile_require")
     ctx.require(rq is not None, "compile_require not found")
     arm = pyq.contains(rq, lambda n: isinstance(n, ast.If) and "require(module_name, compiler.module" in flat(n.test))
-    ctx.require(arm is not None, "compile_require: module-level arm not found")
+    ctx.need(arm is not None, "compile_require: module-level arm not found")
     ct = pyq.contains(arm.test, lambda n: isinstance(n, ast.Call) and dotted(n.func) == "require")
     kw = {k.arg: norm(k.value) for k in ct.keywords}
     ctx.check(norm(ct.args[0]) == "module_name" and kw.get("assignments") == "assignments" and kw.get("prefix") == "prefix", "REQ-MIRROR", f"{R}|compile_require|compile-time call", f"compile-time require is called with {norm(ct)[:100]}", R, ct.lineno, detail="module_name, assignments, prefix")
